@@ -206,3 +206,24 @@ func genC01(rt *rapid.T) Case {
 func TestC01Ledgers(t *testing.T) {
 	common.Check(t, "C01", "TestC01Ledgers", 8000, 160000, genC01, c01Prop)
 }
+
+// TestC01FastAggregate focuses on Fast-HotStuff with a Byzantine leader that misuses aggregate QCs (replays an old one,
+// equivocates after a view change, withholds and releases proposals): views often end by timeout, so aggregate QCs exist.
+func TestC01FastAggregate(t *testing.T) {
+	common.Check(t, "C01", "TestC01FastAggregate", 3000, 80000, func(rt *rapid.T) Case {
+		o := GenOpts{Actor: true, MaxSteps: 160, MinFaulty: 1, Rules: []string{"fasthotstuff"}, ActorBias: 26,
+			ActorWeights: map[int]int{AProposeHonest: 3, AProposeWeird: 2, AVote: 1, AAssembleQC: 2, ARelabelQC: 1, ATimeout: 3, ANewView: 2,
+				ARepeatQC: 1, AReplay: 2, AEquivocate: 5, AToggleFetch: 1, AVoteHonestly: 4, AForgedTC: 1, AProposeSkip: 2, AProposeStaleQC: 4,
+				AProposeOnForged: 2, AHoldNext: 3, ARelease: 4, AProposeOldAgg: 9}}
+		cfg := GenConfig(rt, o)
+		cfg.ActorAuto = rapid.IntRange(0, 4).Draw(rt, "auto") != 0
+		steps := GenSteps(rt, cfg, o)
+		// more timeouts than usual: every aggregate QC needs a timed-out view
+		for i := range steps {
+			if steps[i].K == KDrop || steps[i].K == KDup {
+				steps[i].K = KTimeoutAll
+			}
+		}
+		return Case{Cfg: cfg, Steps: steps}
+	}, c01Prop)
+}
